@@ -44,7 +44,9 @@ def make_interp(ctx):
     ai = codec.make_interp(ctx)
 
     def s_deque(interp, args, kwargs, node):
-        return AList(list(interp.iterate(args[0], node)) if args else [], 'deque')
+        r = AList(list(interp.iterate(args[0], node)) if args else [], 'deque')
+        r.maxlen = kwargs.get('maxlen', args[1] if len(args) > 1 else None)
+        return r
     ai.summaries['collections.deque'] = s_deque
     ai.summaries['threading.RLock'] = lambda i, a, k, n: AMock('RLock')
     ai.summaries['threading.Lock'] = lambda i, a, k, n: AMock('Lock')
